@@ -25,6 +25,15 @@ CHECKS["C16"] = ("model_checking",
             "BitRange.tla; TLC also evaluates the inverse and mask facts of the specification on the whole domain.",
             "Trusted: TLC, Json module, harness field mapping; the unexported helpers are reached through the guarded hook "
             "openflow13/verif_hooks.go (build tag verif).", "4/C16")
+CHECKS["C19"] = ("model_checking",
+                 "TLC bounded-exhaustive op sequences of OfBase.tla (encoder writes, decoder frames/slices) replayed on ofbase.Encoder/Decoder; TLC trace judge",
+                 "OfBase.tla models the encoder as a byte sequence and the decoder as a stack of frames over the enclosing message; TLC "
+                 "enumerates every write sequence to depth 3/4 and every enabled decoder-operation sequence (skips, alignment, nested "
+                 "slices with rewind, typed reads) to depth 4/5, checks the alignment clause on every reachable frame of the model, and "
+                 "judges every value, offset, base offset and remaining length the real code reported; header decoding is enumerated "
+                 "for every input length 0..16.",
+                 "Trusted: TLC, Json module, the harness' op-to-method mapping. Bounded depth (uniformity beyond the bound is assumed, "
+                 "mitigated by seeded simulated sequences of depth 12/16).", "4/C19")
 
 NOT_YET = {
 }
